@@ -221,9 +221,10 @@ class Rig(object):
     def collect(self):
         """The real collect() on A, recorded; then the frame is dispatched at B, recorded."""
         A = self.A
-        pre = snap(A)
-        f = A.collect()
-        post = snap(A)
+        with A.lock:            # a helper thread that collect() wakes up cannot touch the tables before `post` is taken
+            pre = snap(A)
+            f = A.collect()
+            post = snap(A)
         pdus = [] if f is None else list(f) if f.name == "AGF" else [f]
         rawset = self.raw_pdus
         frame = [pdesc(p, id(p) in rawset) for p in pdus]
@@ -232,6 +233,10 @@ class Rig(object):
                             enc=len(enc), wids=[crc(p.encode()) for p in pdus], cont=not self.touched))
         self.touched = False
         self.nframes += 1
+        n0 = len(self.waiters)
+        self.sync()             # e.g. close() returning because the FRMR just dequeued shut its socket down
+        if len(self.waiters) != n0:
+            self.touched = True
         self.rx = []
         if f is not None:
             self.B.dispatch(pdu_mod.decode(enc))
@@ -654,7 +659,7 @@ def run(tier, seed):
     ck.cover(witnesses_reached=sorted(sum(WITNESSES.values(), [])))
 
     # 2. conformance: real collect()/dispatch() -> Trace_LlcpCollect
-    n = 240 if quick else 4000
+    n = 320 if quick else 4000
     traces, meta = [], {}
     for i in range(n):
         klass = KLASSES[i % len(KLASSES)]
